@@ -326,6 +326,9 @@ def check_stats(solver, L, cfg, mode, delivered, viol, ctx):
     st = solver.get_statistics()
     c = L.c
     got = {k: st[k] for k in STAT_KEYS}
+    again = solver.get_statistics()
+    if {k: again[k] for k in STAT_KEYS} != got:
+        viol("C17", "statistics-query-not-idempotent", ctx + f"two consecutive get_statistics() after the same run: {got} then {dict(again)}")
 
     def expect(key, allowed, what):
         if got[key] not in allowed:
